@@ -301,9 +301,14 @@ class Writer(object):
                 o['rows'] = None
             return o
         out = []
+        # the members of a row object come in any order (a JSON object is unordered): column order, or the reverse
+        reverse = sp(p + '.rowmembers', ['column-order', 'reversed']) == 'reversed'
         for ri, r in enumerate(rows):
             row = {}
-            for (c, _), cell in zip(cols, r):
+            pairs = list(zip(cols, r))
+            if reverse:
+                pairs.reverse()
+            for (c, _), cell in pairs:
                 q = '%s.r%d.%s' % (p, ri, c)
                 if cell == N.NULL and sp(q + '.omit', [False, True]):
                     continue
